@@ -50,6 +50,12 @@ func main() {
 		c.Floor("day_boundaries_crossed_then_cycled", int64(n)/10/sh, c.Counter("day_boundaries_crossed_then_cycled"))
 		c.Floor("lines_after_cycle_in_new_file", int64(n)/5/sh, c.Counter("lines_after_cycle_in_new_file"))
 
+		n = c.N(640, 12800)
+		secRotationFine(c, n)
+		c.Floor("fine_day_boundaries_crossed_then_cycled", int64(n)/10/sh, c.Counter("fine_day_boundaries_crossed_then_cycled"))
+		c.Floor("fine_crossings_by_steps_up_to_one_minute", int64(n)/25/sh, c.Counter("fine_crossings_by_steps_up_to_one_minute"))
+		c.Floor("fine_lines_after_cycle_in_current_file", int64(n)/5/sh, c.Counter("fine_lines_after_cycle_in_current_file"))
+
 		n = c.N(64, 1280)
 		secRotationConcurrent(c, n)
 		c.Floor("concurrent_rotation_lines", int64(n)*20/sh, c.Counter("concurrent_rotation_lines"))
